@@ -665,6 +665,8 @@ def failOf : Act → Act
 inductive FaultKind where
   | exc | dieBefore | dieAfter
   | abort        -- once k operations have been issued an exception is thrown into the saver thread
+  | skip         -- the thread that would issue operation k fails without issuing it (a pool task that raised earlier,
+                 -- while saving another data type: this saver's write of that chunk never starts)
 deriving DecidableEq, Repr, Inhabited
 
 /-- a fault: the `k`-th FS operation (counted over the whole attempt, all threads) raises / is the last thing
@@ -716,6 +718,10 @@ def runAuto (o : RmOrder) (fts : List Fault) : Nat → Cfg → List Op → RunRe
       | some .exc =>
         match step c (failOf a) with
         | some c' => runAuto o fts fuel c' log'
+        | none => ⟨c, log, false⟩
+      | some .skip =>
+        match step c (failOf a) with
+        | some c' => runAuto o (fts.filter fun f => !(f.k == log.length && f.kind == .skip)) fuel c' log
         | none => ⟨c, log, false⟩
       | some .dieAfter =>
         match step c a with
